@@ -193,7 +193,78 @@ macro_rules! lines_get {
 }
 lines_get!(c17_lines_get_2, 2, 6);
 
+/// char view `slice(i, j)` and `get(i)` on ASCII strings (characters == bytes): Some(s[i..j]) iff i <= j <= len,
+/// in particular None for an empty range that starts past the end; get(i) = i-th character or None.
+macro_rules! chars_view_ascii {
+    ($name:ident, $n:expr, $unwind:expr) => {
+        #[cfg_attr(kani, kani::proof)]
+        #[cfg_attr(kani, kani::unwind($unwind))]
+        pub fn $name() {
+            let b: Bytes<$n> = Bytes::any_ascii();
+            if let Some(s) = b.as_str() {
+                let by = b.bytes();
+                let v = RotoString::from(s).chars();
+                let i = any_index($n + 1);
+                let j = any_index($n + 1);
+                let sl = v.slice(i, j);
+                let valid = i <= j && j <= by.len();
+                match sl {
+                    Some(t) => {
+                        assert!(valid, "chars.slice returned Some for an invalid range");
+                        let tb = t.as_bytes();
+                        assert!(tb.len() == j - i, "chars.slice length");
+                        let mut k = 0;
+                        while k < tb.len() {
+                            assert!(tb[k] == by[i + k], "chars.slice content");
+                            k += 1;
+                        }
+                        cover!(j > i, "non_empty_slice");
+                        cover!(j == i && i == by.len(), "empty_slice_at_end");
+                    }
+                    None => {
+                        assert!(!valid, "chars.slice returned None for a valid range");
+                        cover!(i == j, "empty_range_past_the_end");
+                    }
+                }
+                let g = v.get(i);
+                if i < by.len() {
+                    assert!(g == Some(by[i] as char), "chars.get returned a different character");
+                } else {
+                    assert!(g.is_none(), "chars.get out of range must be None");
+                }
+            }
+        }
+    };
+}
+/// the smallest instance: `slice` only, every ASCII string of <= 2 bytes, 0 <= i, j <= 3
+#[cfg_attr(kani, kani::proof)]
+#[cfg_attr(kani, kani::unwind(6))]
+pub fn c17_chars_slice_ascii_2() {
+    let b: Bytes<2> = Bytes::any_ascii();
+    if let Some(s) = b.as_str() {
+        let n = b.bytes().len();
+        let v = RotoString::from(s).chars();
+        let i: usize = any();
+        let j: usize = any();
+        assume(i <= 3 && j <= 3);
+        let sl = v.slice(i, j);
+        let valid = i <= j && j <= n;
+        assert!(sl.is_some() == valid, "chars.slice: Some exactly for i <= j <= number of characters");
+        if let Some(t) = sl {
+            assert!(t.as_bytes().len() == j - i, "chars.slice length");
+            std::mem::forget(t);
+        }
+        cover!(valid && j > i, "non_empty_slice");
+        cover!(!valid && i == j, "empty_range_past_the_end");
+    }
+}
+chars_view_ascii!(c17_chars_view_ascii_2, 2, 6);
+chars_view_ascii!(c17_chars_view_ascii_3, 3, 7);
+
 crate::list![
+    c17_chars_slice_ascii_2,
+    c17_chars_view_ascii_2,
+    c17_chars_view_ascii_3,
     c17_bytes_get_3,
     c17_bytes_view_2,
     c17_bytes_view_3,
